@@ -39,7 +39,34 @@ FIXED = True   # the main model is the repaired behaviour
 INV_KINDS = ("BS", "BS", "BS", "PS", "PERM", "U", "UH", "Barrier")
 
 
+# Sizes at which container / integer representations change behaviour (hash-table sizes of small-int sets, word
+# and digit boundaries): wide circuits put components across them.
+BOUNDARIES = (8, 16, 32)
+WIDE_MIN = 9          # a circuit is "wide" from 9 modes on (beyond the first hash-table size of a CPython set)
+
+
+def gen_perm_vec(rng, n):
+    """a permutation of n modes: uniform, or a few transpositions, or a rotation (many fixed points / long cycles)"""
+    p = list(range(n))
+    r = rng.random()
+    if r < 0.6 or n < 3:
+        rng.shuffle(p)
+    elif r < 0.8:
+        for _ in range(rng.randint(1, 3)):
+            i, j = rng.randrange(n), rng.randrange(n)
+            p[i], p[j] = p[j], p[i]
+    else:
+        k = rng.randint(1, n - 1)
+        p = p[k:] + p[:k]
+    return p
+
+
 def gen_leaf(rng, maxw, kinds=INV_KINDS):
+    if maxw > 5 and rng.random() < 0.2 and ("PERM" in kinds or "UH" in kinds):
+        # components wider than the shared generator makes them (PERM <= 5, Unitary <= 4 there)
+        if "UH" not in kinds or rng.random() < 0.7:
+            return {"t": "PERM", "perm": gen_perm_vec(rng, rng.randint(6, maxw))}
+        return {"t": "UH", "n": rng.randint(5, min(maxw, 8)), "seed": rng.randrange(1 << 30)}
     spec = gens.gen_leaf(rng, maxw, kinds=kinds)
     if spec["t"] == "BS" and rng.random() < 0.25:
         # the situations the existing tests cover: default / equal phases
@@ -140,6 +167,8 @@ def gen_inv_case(rng, chk):
             ops.append({"off": rng.randint(0, m - w), "node": {"ref": 1}, "how": rng.choice(["fd", "nest"])})
         return {"seq": seq, "top": {"id": 2, "circ": m, "ops": ops, "size": m}}
     m = rng.randint(2, chk.pick(6, 8))
+    if rng.random() < 0.1:
+        m = rng.randint(WIDE_MIN, chk.pick(14, 20))
     pool, counter = [], [0]
     top = gen_inv_node(rng, m, rng.randint(0, chk.pick(2, 3)), rng.randint(1, chk.pick(6, 10)), pool, counter)
     return {"seq": seq, "top": top}
@@ -382,6 +411,10 @@ def handle_inverse(chk, case):
     nested = has_nested_offset(case["top"], b.specs)
     if nested:
         chk.branch("inv-nested-offset")
+    if case["top"]["size"] >= WIDE_MIN:
+        chk.branch("inv-wide")
+        if any(gens.leaf_width(s) > 5 for s in specs.values()):
+            chk.branch("inv-wide-component")
     res = judge_inverse(chk, case)
     chk.case(("inv", json.dumps(case, sort_keys=True)[:2000]), nontrivial=(shared or nested or len(specs) >= 3),
              sample={"part": "inverse", "seq": case["seq"], "leaves": [s["t"] for s in specs.values()][:6],
@@ -409,6 +442,9 @@ def run_perm_helpers(chk):
     from perceval.utils.algorithms import simplification as S
     nmax = chk.pick(4, 5)
     perms = [list(p) for n in range(1, nmax + 1) for p in itertools.permutations(range(n))]
+    # ... and random wide ones (beyond every size the exhaustive part reaches)
+    wide = [gen_perm_vec(chk.rng, chk.rng.randint(nmax + 1, chk.pick(24, 40))) for _ in range(chk.pick(40, 200))]
+    perms += wide
     reqs, real, oracle = [], [], []
     def guarded(fn, *a):
         try:
@@ -427,7 +463,7 @@ def run_perm_helpers(chk):
         reqs.append({"op": "perm", "fn": "invert", "perm": p})
         real.append(("invert", p, {"out": [int(x) for x in out]}))
         oracle.append(np.array_equal(perm_matrix(out), perm_matrix(p).T))
-        for r0 in (0, 1, 3):
+        for r0 in ((0, 1, 3) if n <= nmax else (0, chk.rng.randint(1, 12))):
             r = tuple(range(r0, r0 + n))
             # reduce_perm
             res_ = guarded(S.reduce_perm, r, list(p))
@@ -451,24 +487,30 @@ def run_perm_helpers(chk):
     # perm_compose: all pairs of small permutations at all small offsets
     cmax = chk.pick(3, 4)
     small = [p for p in perms if len(p) <= cmax]
-    for lp in small:
-        for rp in small:
-            for lr0 in range(0, 3):
-                for rr0 in range(0, 3):
-                    lr = tuple(range(lr0, lr0 + len(lp)))
-                    rr = tuple(range(rr0, rr0 + len(rp)))
-                    res_ = guarded(S.perm_compose, lr, list(lp), rr, list(rp))
-                    if res_ is None:
-                        continue
-                    nr, npm = res_
-                    reqs.append({"op": "perm", "fn": "compose", "lr0": lr0, "lperm": lp, "rr0": rr0, "rperm": rp})
-                    real.append(("compose", (lr0, lp, rr0, rp), {"n": len(nr), "out": [int(x) for x in npm]}))
-                    mm = len(nr)
-                    oracle.append(list(nr) == list(range(mm)) and np.array_equal(
-                        perm_matrix(npm), perm_matrix(rp, rr0, mm) @ perm_matrix(lp, lr0, mm)))
+    pairs = [(lp, rp, lr0, rr0) for lp in small for rp in small for lr0 in range(0, 3) for rr0 in range(0, 3)]
+    # wide pairs at arbitrary offsets (either side may reach further than the other)
+    pairs += [(chk.rng.choice(wide), chk.rng.choice(wide + small), chk.rng.randint(0, 10), chk.rng.randint(0, 10))
+              for _ in range(chk.pick(60, 300))]
+    pairs += [(chk.rng.choice(small), chk.rng.choice(wide), chk.rng.randint(0, 30), chk.rng.randint(0, 10))
+              for _ in range(chk.pick(20, 100))]
+    for lp, rp, lr0, rr0 in pairs:
+        lr = tuple(range(lr0, lr0 + len(lp)))
+        rr = tuple(range(rr0, rr0 + len(rp)))
+        res_ = guarded(S.perm_compose, lr, list(lp), rr, list(rp))
+        if res_ is None:
+            continue
+        nr, npm = res_
+        reqs.append({"op": "perm", "fn": "compose", "lr0": lr0, "lperm": lp, "rr0": rr0, "rperm": rp})
+        real.append(("compose", (lr0, lp, rr0, rp), {"n": len(nr), "out": [int(x) for x in npm]}))
+        mm = len(nr)
+        oracle.append(list(nr) == list(range(mm)) and np.array_equal(
+            perm_matrix(npm), perm_matrix(rp, rr0, mm) @ perm_matrix(lp, lr0, mm)))
     reps = chk.lean.ask_many(reqs)
     for (fn, args, obs), rep, ok in zip(real, reps, oracle):
         chk.branch("perm-" + fn)
+        vecs = [args] if isinstance(args, list) else [a for a in args if isinstance(a, list)]
+        if any(len(v) > nmax for v in vecs):
+            chk.branch("perm-wide-" + fn)
         chk.case(("perm", fn, json.dumps(args)), nontrivial=True,
                  sample={"part": "perm-helper", "fn": fn, "args": args})
         if fn == "reduce":
@@ -494,6 +536,7 @@ def run_bubble(chk):
     from perceval.components.comp_utils import decompose_perms
     nmax = chk.pick(5, 6)
     perms = [list(p) for n in range(1, nmax + 1) for p in itertools.permutations(range(n))]
+    perms += [gen_perm_vec(chk.rng, chk.rng.randint(nmax + 1, chk.pick(20, 36))) for _ in range(chk.pick(40, 200))]
     reqs = [{"op": "perm", "fn": "bubble", "perm": p} for p in perms]
     reps = chk.lean.ask_many(reqs)
     for p, rep in zip(perms, reps):
@@ -505,6 +548,8 @@ def run_bubble(chk):
                      {"part": "bubble", "perm": p})
             continue
         chk.branch("bubble")
+        if len(p) > nmax:
+            chk.branch("bubble-wide")
         chk.case(("bubble", tuple(p)), nontrivial=len(p) >= 3, sample={"part": "bubble", "perm": p})
         if len(p) == 2:
             if out is not comp:
@@ -537,13 +582,20 @@ def run_bubble(chk):
 SIMP_KINDS = ("PS", "PS", "PS", "PERM", "PERM", "PERM", "BS", "BS", "U", "PSV", "Barrier")
 
 
-def gen_simp_flat(rng, m, n_ops, vcount):
+def near(rng, m, w, focus):
+    """first mode of a w-mode component: anywhere, or (focus given) so that it covers / touches the focus mode"""
+    if focus is None or rng.random() < 0.25:
+        return rng.randint(0, m - w)
+    return min(max(focus - rng.randint(0, w), 0), m - w)
+
+
+def gen_simp_flat(rng, m, n_ops, vcount, maxperm=5, focus=None, kinds=SIMP_KINDS):
     ops = []
     last_ps = {}
     for _ in range(n_ops):
-        k = rng.choice(SIMP_KINDS)
+        k = rng.choice(kinds)
         if k == "PS":
-            mode = rng.randrange(m)
+            mode = near(rng, m, 1, focus)
             r = rng.random()
             if r < 0.10:
                 phi = [core.rat(1), core.rat(0)]                       # PS(0)
@@ -561,28 +613,58 @@ def gen_simp_flat(rng, m, n_ops, vcount):
             ops.append({"off": mode, "leaf": {"t": "PS", "phi": phi}})
         elif k == "PSV":
             vcount[0] += 1
-            ops.append({"off": rng.randrange(m), "leaf": {"t": "PSV", "name": f"v{vcount[0]}", "phi": gens.gen_cs(rng)}})
+            ops.append({"off": near(rng, m, 1, focus),
+                        "leaf": {"t": "PSV", "name": f"v{vcount[0]}", "phi": gens.gen_cs(rng)}})
         elif k == "PERM":
-            n = rng.randint(1 if rng.random() < 0.05 else 2, min(m, 5))
-            p = list(range(n))
-            rng.shuffle(p)
+            n = rng.randint(1 if rng.random() < 0.05 else 2, min(m, maxperm))
+            if maxperm > 5 and rng.random() < 0.5:
+                n = rng.randint(max(2, m - 3), m)             # (nearly) the whole circuit
+            p = gen_perm_vec(rng, n) if maxperm > 5 else list(range(n))
+            if maxperm <= 5:
+                rng.shuffle(p)
             if rng.random() < 0.1:
                 p = list(range(n))
             ops.append({"off": rng.randint(0, m - n), "leaf": {"t": "PERM", "perm": p}})
         elif k == "BS":
             if m < 2:
                 continue
-            ops.append({"off": rng.randint(0, m - 2), "leaf": gens.gen_leaf(rng, 2, kinds=("BS",))})
+            ops.append({"off": near(rng, m, 2, focus), "leaf": gens.gen_leaf(rng, 2, kinds=("BS",))})
         elif k == "U":
             spec = gens.gen_leaf(rng, min(m, 3), kinds=("U",))
-            ops.append({"off": rng.randint(0, m - gens.leaf_width(spec)), "leaf": spec})
+            ops.append({"off": near(rng, m, gens.leaf_width(spec), focus), "leaf": spec})
         else:
             w = rng.randint(1, m)
             ops.append({"off": rng.randint(0, m - w), "leaf": {"t": "Barrier", "m": w}})
     return ops
 
 
+MID_KINDS = ("BS", "BS", "BS", "PS", "U", "U", "PSV")
+
+
+def gen_simp_wide(rng, chk):
+    """Wide circuits (9 .. 40 modes) with permutations as wide as the circuit.  Half of them are a `sandwich`:
+    PERM, a few (possibly overlapping) components clustered around a focus mode, PERM - the shape in which
+    `_simplify_perm` unravels - with the focus drawn among the size boundaries or anywhere."""
+    m = rng.randint(WIDE_MIN, chk.pick(24, 40)) if rng.random() < 0.7 else rng.randint(33, 40)
+    vcount = [0]
+    focus = rng.choice([b for b in BOUNDARIES if b < m]) if rng.random() < 0.5 else rng.randrange(m)
+    if rng.random() < 0.55:
+        def wperm():
+            n = rng.randint(max(2, m - 3), m) if rng.random() < 0.7 else rng.randint(2, m)
+            return {"off": rng.randint(0, m - n), "leaf": {"t": "PERM", "perm": gen_perm_vec(rng, n)}}
+        ops = gen_simp_flat(rng, m, rng.randint(0, 2), vcount, maxperm=m, focus=focus)
+        ops.append(wperm())
+        ops += gen_simp_flat(rng, m, rng.randint(1, 4), vcount, focus=focus, kinds=MID_KINDS)
+        ops.append(wperm())
+        ops += gen_simp_flat(rng, m, rng.randint(0, 2), vcount, maxperm=m, focus=focus)
+    else:
+        ops = gen_simp_flat(rng, m, rng.randint(2, chk.pick(9, 12)), vcount, maxperm=m, focus=focus)
+    return {"m": m, "ops": ops, "display": rng.random() < 0.4, "as_list": rng.random() < 0.25}
+
+
 def gen_simp_case(rng, chk):
+    if rng.random() < 0.3:
+        return gen_simp_wide(rng, chk)
     m = rng.randint(2, chk.pick(6, 8))
     vcount = [0]
     n_ops = rng.randint(2, chk.pick(12, 20))
@@ -656,11 +738,86 @@ def circuit_of(m, comps):
     return c
 
 
+LEAN_EXACT_MAX = 12     # widest circuit whose exact matrix is (also) asked from the Lean model
+
+
+def exact_product(m, comps):
+    """Exact product (Fractions) of the components' own dyadic matrices, each applied to the rows of its modes only
+    (cost w*w*m per component instead of m^3: the wide circuits stay cheap)."""
+    from fractions import Fraction
+    zero = Fraction(0)
+    acc = [[(Fraction(int(i == j)), zero) for j in range(m)] for i in range(m)]
+    for r, x in comps:
+        r0, w = int(tuple(r)[0]), x.m
+        u = np.array(x.compute_unitary(use_symbolic=False), dtype=complex)
+        rows = [acc[r0 + k] for k in range(w)]
+        for i in range(w):
+            nz = [(k, Fraction(*float(u[i, k].real).as_integer_ratio()), Fraction(*float(u[i, k].imag).as_integer_ratio()))
+                  for k in range(w) if u[i, k] != 0]
+            out = []
+            for j in range(m):
+                re = im = zero
+                for k, a, b in nz:
+                    c, d = rows[k][j]
+                    if c or d:
+                        re += a * c - b * d
+                        im += a * d + b * c
+                out.append((re, im))
+            acc[r0 + i] = out
+    return np.array([[complex(float(re), float(im)) for re, im in row] for row in acc], dtype=complex)
+
+
+class EvaluatorsDisagree(Exception):
+    pass
+
+
 def exact_u(chk, m, comps):
-    """exact product of the components' own matrices (Lean)"""
-    items = [[int(tuple(r)[0]), {"un": x.m, "U": gens.leaf_matrix_json(x)}] for r, x in comps]
-    rep = chk.lean.ask({"op": "inverse", "fixed": FIXED, "seq": [], "tree": {"circ": m, "items": items}})
-    return np.array(core.unmat(rep["U"]), dtype=complex)
+    """exact product of the components' own matrices: Lean model up to LEAN_EXACT_MAX modes (cross-checked there
+    against the row-wise exact evaluation), row-wise exact evaluation alone beyond"""
+    want = exact_product(m, comps)
+    if m <= LEAN_EXACT_MAX:
+        items = [[int(tuple(r)[0]), {"un": x.m, "U": gens.leaf_matrix_json(x)}] for r, x in comps]
+        rep = chk.lean.ask({"op": "inverse", "fixed": FIXED, "seq": [], "tree": {"circ": m, "items": items}})
+        lean_u = np.array(core.unmat(rep["U"]), dtype=complex)
+        if not close_np(lean_u, want):
+            raise EvaluatorsDisagree(f"exact product of {len(comps)} leaves on {m} modes: Lean model and row-wise "
+                                     f"evaluation differ by {float(np.max(np.abs(lean_u - want))):.3g}")
+        chk.branch("exact-product-cross-checked")
+        return lean_u
+    return want
+
+
+def mode_groups(items):
+    """groups of mutually dependent modes of the components lying between two permutations (own computation)"""
+    groups = []
+    for it in items:
+        cur = set(range(it["r0"], it["r0"] + it["w"]))
+        rest = []
+        for g in groups:
+            if g & cur:
+                cur |= g
+            else:
+                rest.append(g)
+        groups = rest + [cur]
+    return [sorted(g) for g in groups if len(g) > 1]
+
+
+def count_unravel_shape(chk, m, before):
+    """which shapes the unravelling branch was exercised on"""
+    last = max(i for i, it in enumerate(before) if it["k"] == "perm")
+    groups = mode_groups(before[last + 1:])
+    chk.count("unravel_groups", len(groups))
+    if len(before) - last - 1 >= 2 and any(len(g) > 2 for g in groups):
+        chk.branch("simp-unravelled-overlapping-comps")
+    if m >= WIDE_MIN:
+        chk.branch("simp-wide-unravelled")
+        if any(g[-1] >= 8 for g in groups):
+            chk.branch("simp-wide-unravelled-high-modes")
+        for b in BOUNDARIES:
+            if any(g[0] < b <= g[-1] for g in groups):
+                chk.branch(f"simp-unravelled-group-across-{b}")
+                if any(g[0] < b <= g[-1] and len(g) >= 5 for g in groups):
+                    chk.count("unravel_big_group_across", b)
 
 
 def judge_simplify(chk, case, count=True):
@@ -692,6 +849,8 @@ def judge_simplify(chk, case, count=True):
         if rep.get("ok"):
             if count:
                 chk.branch("simp-" + rep["tag"])
+                if rep["tag"] == "non-successive/unravelled":
+                    count_unravel_shape(chk, m, coded[k - 1])
                 if rep.get("fused"):
                     chk.branch("simp-ps-fused")
                 if rep["tag"].startswith("ps/") and coded[k - 1] and any(
@@ -700,7 +859,14 @@ def judge_simplify(chk, case, count=True):
             continue
         # a step the specification does not allow: evaluate the property on that step
         ub = np_u(circuit_of(m, [[r, c] for r, c in states[k - 1]] + [comps[k - 1]]))
-        ua = np_u(circuit_of(m, states[k])) if states[k] else np.eye(m)
+        try:
+            ua = np_u(circuit_of(m, states[k])) if states[k] else np.eye(m)
+        except (AssertionError, ValueError, IndexError, TypeError, RuntimeError) as e:
+            # the returned component list is not even a circuit on m modes
+            return ("violation", "simplify-invalid-result",
+                    f"simplify step {k} (adding {reqs[k - 1]['new']}) returns components "
+                    f"{[(it['r0'], it['w'], it['k']) for it in coded[k]]} that do not form a circuit on {m} modes "
+                    f"({type(e).__name__}: {str(e)[:100]}; display={display})", {"case": case, "step": k})
         if not close_np(ua, ub):
             return ("violation", "simplify-changes-matrix",
                     f"simplify step {k} (adding {reqs[k - 1]['new']}) changes the circuit matrix by "
@@ -712,8 +878,16 @@ def judge_simplify(chk, case, count=True):
     # final result: same list as the last state, and the exact matrix of the original
     fin_comps = [(tuple(r), c) for r, c in final]
     fcoded = [coder.code(r, c) for r, c in fin_comps]
-    want = exact_u(chk, m, comps)
-    uf = np_u(circuit_of(m, fin_comps)) if fin_comps else np.eye(m)
+    try:
+        want = exact_u(chk, m, comps)
+    except EvaluatorsDisagree as e:
+        return ("broken", "exact-evaluators-disagree", str(e), {"case": case})
+    try:
+        uf = np_u(circuit_of(m, fin_comps)) if fin_comps else np.eye(m)
+    except (AssertionError, ValueError, IndexError, TypeError, RuntimeError) as e:
+        return ("violation", "simplify-invalid-result",
+                f"simplify returns components {[(it['r0'], it['w'], it['k']) for it in fcoded]} that do not form a "
+                f"circuit on {m} modes ({type(e).__name__}: {str(e)[:100]}; display={display})", {"case": case})
     if isinstance(final, list) != case["as_list"]:
         return ("violation", "simplify-return-type", "simplify does not return the kind of object it was given",
                 {"case": case})
@@ -750,6 +924,10 @@ def handle_simplify(chk, case):
         chk.count("simp_kind", k)
     chk.count("simp_m", case["m"])
     chk.count("simp_len", len(case["ops"]))
+    if case["m"] >= WIDE_MIN:
+        chk.branch("simp-wide")
+        if any("leaf" in op and op["leaf"]["t"] == "PERM" and len(op["leaf"]["perm"]) >= WIDE_MIN for op in case["ops"]):
+            chk.branch("simp-wide-perm")
     res = judge_simplify(chk, case)
     nperm = sum(1 for k in kinds if k == "PERM")
     chk.case(("simp", json.dumps(case, sort_keys=True)[:3000]), nontrivial=nperm >= 2,
@@ -773,10 +951,16 @@ def handle_decompose(chk, case):
         chk.fail("violation", "decompose-perms-raises", f"decompose_perms raises {type(e).__name__}: {str(e)[:80]}",
                  {"part": "decompose", "case": case})
         return
-    want = exact_u(chk, case["m"], comps)
+    try:
+        want = exact_u(chk, case["m"], comps)
+    except EvaluatorsDisagree as e:
+        chk.fail("broken", "exact-evaluators-disagree", str(e), {"part": "decompose", "case": case})
+        return
     uo = np_u(out)
     only2 = all((not isinstance(c, PERM)) or c.m == 2 for _, c in out)
     chk.branch("decompose-perms")
+    if case["m"] >= WIDE_MIN:
+        chk.branch("decompose-perms-wide")
     chk.case(("decomp", json.dumps(case, sort_keys=True)[:3000]), nontrivial=True,
              sample={"part": "decompose_perms", "m": case["m"], "merge": merge})
     if not close_np(uo, want):
@@ -801,13 +985,15 @@ def gen_flat_node(rng, m, depth, max_ops, lc, allow_lc):
             lc[0] += 1
             ops.append({"off": rng.randrange(m), "node": {"leaf": {"t": "LC", "id": lc[0], "loss": rng.choice([0.1, 0.25, 0.5])}}})
         else:
-            spec = gens.gen_leaf(rng, m, kinds=("BS", "PS", "PERM", "U", "Barrier"))
+            spec = gen_leaf(rng, m, kinds=("BS", "PS", "PERM", "U", "Barrier"))
             ops.append({"off": rng.randint(0, m - gens.leaf_width(spec)), "node": {"leaf": spec}})
     return {"circ": m, "ops": ops}
 
 
 def gen_flat_case(rng, chk):
     m = rng.randint(2, chk.pick(6, 8))
+    if rng.random() < 0.1:
+        m = rng.randint(WIDE_MIN, chk.pick(14, 20))
     lc = [0]
     top = gen_flat_node(rng, m, rng.randint(1, chk.pick(3, 4)), rng.randint(1, chk.pick(6, 9)), lc,
                         allow_lc=rng.random() < 0.5)
@@ -1007,6 +1193,10 @@ def handle_flatten(chk, case):
     deep = deep_offset(case["top"])
     if deep:
         chk.branch("flatten-two-levels-nonzero-offset")
+    if case["m"] >= WIDE_MIN:
+        chk.branch("flatten-wide")
+        if _has_lc(case["top"]):
+            chk.branch("flatten-wide-with-loss")
     res = judge_flatten(chk, case)
     chk.case(("flat", json.dumps(case, sort_keys=True)[:3000]), nontrivial=deep,
              sample={"part": "flatten", "m": case["m"], "depth": d, "max_depth": case["max_depth"]})
@@ -1036,7 +1226,10 @@ def run(chk: core.Check):
                 "modes, list and Circuit inputs, every intermediate state checked; (flatten) processors with nested circuits "
                 "at non-zero offsets, loss channels, max_depth. distinct = distinct generated programs; non-trivial = "
                 "inverse: shared object / nested offset / >= 3 leaves; simplify: >= 2 PERMs; flatten: two nesting levels at a "
-                "non-zero offset; perms: every case")
+                "non-zero offset; perms: every case. Every family also draws wide instances (9..40 modes for simplify / "
+                "decompose_perms with permutations as wide as the circuit and the in-between components clustered around "
+                "a focus mode, half of the time one of the size boundaries 8/16/32; 9..20 modes for inverse and flatten; "
+                "random permutations of up to 40 modes for the helpers and the bubble sort)")
     chk.assumptions = [
         "Unitary / PERM leaves are known to the model by their own compute_unitary() (C14); BS and PS by exact parameters",
         "the validity of the simplifier's heuristic choice (_generate_compatible_perm) is not proved: ValidChoice is "
@@ -1051,11 +1244,20 @@ def run(chk: core.Check):
         "simp-ps/keep", "simp-ps/drop", "simp-ps-fused", "simp-ps-fused-through-perm", "simp-display", "simp-compute",
         "decompose-perms", "flatten-depth-none", "flatten-depth-limited", "flatten-two-levels-nonzero-offset",
         "regroup-with-loss", "copy", "linear-circuit-flatten",
+        # wide circuits (>= 9 modes, permutations as wide as the circuit) in every family
+        "inv-wide", "inv-wide-component", "perm-wide-invert", "perm-wide-reduce", "perm-wide-extend",
+        "perm-wide-compose", "bubble-wide", "simp-wide", "simp-wide-perm", "simp-wide-unravelled",
+        "simp-wide-unravelled-high-modes", "simp-unravelled-group-across-8", "simp-unravelled-group-across-16",
+        "simp-unravelled-overlapping-comps", "decompose-perms-wide", "flatten-wide", "flatten-wide-with-loss",
+        "exact-product-cross-checked",
     ]
     chk.lean = core.LeanDriver("C11")
     rng = chk.rng
     for data in load_corpus():
         PARTS[data["part"]](chk, data["case"])
+    # the required branches must be reached by the generators themselves, not by the stored cases
+    chk.extra["corpus_branches"] = dict(chk.branches)
+    chk.branches = {}
     run_perm_helpers(chk)
     run_bubble(chk)
     for _ in range(chk.pick(700, 4000)):
